@@ -1,7 +1,7 @@
 import Driver.Ops.C05
 import LentilVerif.Model.Blur
-/-! Model driver ops for C19: `c19.blur` runs the pixel / jitter / smear model at doubles. The intermediate arrays are
-forced once (`freeze`) between the stages of `blurCore`, which does not change any value inside the shape. -/
+/-! Model driver ops for C19: `c19.blur` runs the very definitions `Lentil.pixel / jitter / smear` the theorems of
+Props/C19.lean are about, instantiated at complex doubles. -/
 open Lean Lentil Drv
 namespace Ops.C19
 open Ops.C01 Ops.C05
@@ -16,16 +16,6 @@ def realArrOfJson (j : Json) : R (Arr Float) := do
   let v ← getFloats j "v"
   pure { s0 := sh[0]!, s1 := sh[1]!, get := mkGet sh[1]! v }
 
-def freezeR (a : Arr Float) : Arr Float :=
-  let cells : Array Float := ((idxList a.s0 a.s1).map fun (i, j) => a.get i j).toArray
-  { a with get := mkGet a.s1 cells }
-
-/-- `blurCore` with each stage evaluated once -/
-def blurCoreF (img k : Arr Float) : Arr Float :=
-  let X : Arr CF := freeze (fft2 (R := Float) (toCx img))
-  let Y : Arr CF := freeze (mulKernel X k)
-  freezeR (absArr (ifft2 (R := Float) Y))
-
 def handle (op : String) (j : Json) : Option (R Json) :=
   match op with
   | "c19.blur" => some do
@@ -33,13 +23,13 @@ def handle (op : String) (j : Json) : Option (R Json) :=
       let kind ← getStr j "kind"
       let ps ← getFloat j "pixelscale"; let os ← getFloat j "oversample"
       match kind with
-      | "pixel" => pure (okJ [("out", realArrToJson (blurCoreF img (pixelKernel img.s0 img.s1 os)))])
+      | "pixel" => pure (okJ [("out", realArrToJson (Lentil.pixel CF img os))])
       | "jitter" =>
           let s ← getFloat j "extent"
-          pure (okJ [("out", realArrToJson (renorm img (blurCoreF img (jitterKernel img.s0 img.s1 s ps os))))])
+          pure (okJ [("out", realArrToJson (Lentil.jitter CF img s ps os))])
       | "smear" =>
           let s ← getFloat j "extent"; let a ← getFloat j "angle"
-          pure (okJ [("out", realArrToJson (renorm img (blurCoreF img (smearKernel img.s0 img.s1 s a ps os))))])
+          pure (okJ [("out", realArrToJson (Lentil.smear CF img s a ps os))])
       | _ => throw "bad kind"
   | "c19.kernel" => some do
       let sh ← getInts j "shape"
